@@ -111,6 +111,12 @@ def admPattern (kind : String) (k : Nat) (A : CRS K) : Option ((Nat → Nat → 
   else if kind = "ilut" then some (fun _ _ => false, fun _ _ => true)
   else none
 
+/-- the pattern of `A` is closed under fill-in: `(i,k)`, `(k,j)` stored with `k < i`, `k < j` ⟹ `(i,j)` stored
+(true for tridiagonal and for arrow patterns pointing to the last row/column): the exact `LU` factors fit into it -/
+def noFillb (A : CRS K) : Bool :=
+  (List.range A.nrows).all (fun i => (A.row i).all (fun ck =>
+    !(decide (ck.1 < i)) || (A.row ck.1).all (fun cj => !(decide (ck.1 < cj.1)) || patOf A i cj.1)))
+
 def samePatternb (A M : CRS K) : Bool :=
   A.nrows == M.nrows &&
   (List.range A.nrows).all (fun i => (A.row i).map (·.1) == (M.row i).map (·.1))
